@@ -33,7 +33,7 @@ theorem convertCCFB_total (fb : Ccfb) : ∃ r, Rtpfb.convertCCFB fb = .ok r := b
   exact ⟨_, rfl⟩
 
 /-- ★ `Interceptor.processFeedback` (the body of the RTCP reader after parsing) always returns
-normally, for every history and every list of parsed TWCC / RFC 8888 packets. -/
+normally, for every history and every list of parsed TWCC / RFC 8888 / other RTCP packets. -/
 theorem processFeedback_total (h : Rtpfb.Hist) (ts : Int) (pkts : List Rtpfb.Pkt) :
     ∃ r, Rtpfb.processFeedback h ts pkts = .ok r := by
   have loop : ∀ (pkts : List Rtpfb.Pkt) (h : Rtpfb.Hist) (sh ad : Int),
@@ -53,6 +53,9 @@ theorem processFeedback_total (h : Rtpfb.Hist) (ts : Int) (pkts : List Rtpfb.Pkt
         unfold Rtpfb.pktLoop
         obtain ⟨r, hr⟩ := convertCCFB_total fb
         rw [hr]
+        exact ih _ _ _
+      | other =>
+        unfold Rtpfb.pktLoop
         exact ih _ _ _
   unfold Rtpfb.processFeedback
   obtain ⟨r, hr⟩ := loop pkts h Rtpfb.maxInt64 0
